@@ -111,15 +111,15 @@ func getTransactionAndMetaFromNode(
 // scenarios (param "scenarios" = how many of them are explored):
 //
 //	0: windows of two transactions ("2", thorough also "11"), whole range, the first `profiles` filter profiles
-//	1: window "12" (three transactions: more than the scaled batch limit), include [A] / [A,B]
-//	2: windows "1s1" / "111", request = whole window, first slot dropped, last slot dropped; include [A,B]
-//	3: window "2", include [A,B], the index query for the first / second account fails
+//	1: windows "1s1" / "111", request = whole window, first slot dropped, last slot dropped; include [A,B]
+//	2: window "2", include [A,B], the index query for the first / second account fails
+//	3: window "12" (three transactions: more than the scaled batch limit), include [A] / [A,B] (= C19.batch)
 var verifC19IdxProfiles = [][3]int{{1, 0, 0}, {2, 0, 0}, {2, 3, 0}, {2, 0, 1}}
 
 func VerifC19Indexed() { verifC19Idx.name = "C19.indexed"; verifC19IndexedBody(-1) }
 
-// C19.batch: scenario 1 alone (the range holds more transactions of one account than the batch limit).
-func VerifC19IndexedBatch() { verifC19Idx.name = "C19.batch"; verifC19IndexedBody(1) }
+// C19.batch: scenario 3 alone (the range holds more transactions of one account than the batch limit).
+func VerifC19IndexedBatch() { verifC19Idx.name = "C19.batch"; verifC19IndexedBody(3) }
 
 func verifC19IndexedBody(scen int) {
 	verifC19Reset(verifC19Base)
@@ -135,16 +135,16 @@ func verifC19IndexedBody(scen int) {
 		tpl = []string{"2", "11"}[verifChoice("window", verifParam("templates", 1))]
 		p = verifC19IdxProfiles[verifChoice("profile", verifParam("profiles", 2))]
 	case 1:
-		tpl = "12"
-		p = verifC19IdxProfiles[verifChoice("profile", verifParam("batch_profiles", 2))]
-	case 2:
 		tpl = []string{"1s1", "111"}[verifChoice("window", 2)]
 		p = verifC19IdxProfiles[1]
 		subrange = verifChoice("subrange", 3)
-	default:
+	case 2:
 		tpl = "2"
 		p = verifC19IdxProfiles[1]
 		failing = verifChoice("failing_query", 2)
+	default:
+		tpl = "12"
+		p = verifC19IdxProfiles[verifChoice("profile", verifParam("batch_profiles", 2))]
 	}
 	verifC19Window(tpl, func(t *verifC19Tx) {
 		if !symVote {
